@@ -13,7 +13,7 @@ LEVEL_TEXT = ("C07_mutex/C07_contract/C07_open_once are proved for all interleav
               "the code by (1) the generated table of every backend call site with the locks syntactically held there (obligation C07_classes_ok: "
               "provided class >= documented class on the receiver's node, re-checked on every run) and (2) the rendezvous battery: every ordered pair of "
               "backend-reaching requests x path relation, first held inside the backend, second observed entering or not, compared with the model.")
-LEVEL_NOTE = ("Trusted: Coq kernel + vm_compute; go2coq LockGen (abstract interpreter over every non-test file of package p9; plans are re-interpreted in Coq, "
+LEVEL_NOTE = ("Open at most once ACROSS fids: C07_open_one_owner (generated tables fidref_literals / ref_field_writes: the only fidRef that borrows another's File, Txattrwalk's, is given no mode / opened / openFlags, so Tlopen on it is refused before File.Open; the only later writes of these fields are the attach root's mode and Tlopen's own) + a raw Txattrwalk/Tlopen probe counting Open per backend File. Trusted: Coq kernel + vm_compute; go2coq LockGen (abstract interpreter over every non-test file of package p9; plans are re-interpreted in Coq, "
               "completeness against a hand-written inventory, contract table pinned; refuses unknown shapes, method values, unfollowable calls); "
               "the hand-written lock semantics (Locks/Locks.v: sync.RWMutex as mutual exclusion); 'overlap' means the instrumented backend's enter/exit events. "
               "C07_contract_sites is a FRAGMENT theorem: each thread runs the plan of ONE call site (start of the handler to the call, the call, release); that a whole "
